@@ -1,5 +1,7 @@
 import Model.DiskFS
 import Proofs.C12
+import Proofs.C01
+import Proofs.Lemmas.Ingress
 /-!
 # C04 — a crash at any point never loses an acknowledged message (disk queue)
 
@@ -412,6 +414,67 @@ theorem restarted_queue_schedules_acknowledged (fs0 : FS) (k c1 c2 id e ts : Nat
     · simp [addQueued, C12.start]
 
 end restart
+
+/-! ### … and nobody the recovered message still lists is lost by the restarted queue (C04 ∘ C01) -/
+section restartLedger
+open Slimta.QM
+
+/-- The recipients `get` shows for a recovered message: the pickled list with the delivered rounds replayed
+    (`envOf e`: the recipients of the envelope pickled with identity `e`). -/
+def rcptsOf (envOf : Nat → List Nat) (fs : FS) (id : Nat) : List Nat :=
+  match recover fs id with
+  | some p => Store.delSeq p.2.delivered (envOf p.1)
+  | none => []
+
+theorem delSeq_sublist (idxs : List Nat) (l : List Nat) : (Store.delSeq idxs l).Sublist l := by
+  induction idxs generalizing l with
+  | nil => simp [Store.delSeq]
+  | cons i rest ih =>
+    simp only [Store.delSeq, List.foldl_cons]
+    exact (ih (l.eraseIdx i)).trans (List.eraseIdx_sublist l i)
+
+/-- **After the crash nobody the message still lists is lost**: under the hypotheses of `acknowledged_message_survives`, start the
+    composed queue machine of C01 on what a fresh `DiskStorage` recovers (ids, due times, recipients not yet marked delivered). In
+    every state the restarted queue reaches — any interleaving of loading announcements, scheduler turns, attempts with any relay
+    answers, retries, removals, new enqueues — every such recipient of the acknowledged message is counted exactly once among
+    delivered / failed for good / outstanding, and when outstanding the message is stored and has a next step. -/
+theorem restarted_queue_never_loses (fs0 : FS) (k c1 c2 id e ts : Nat) (later : List Step) (last : Step)
+    (hl : ∀ s ∈ later, Allowed id s.op) (hlast : Allowed id last.op) (n : Nat) (ids : List Nat) (hnd : ids.Nodup) (hid : id ∈ ids)
+    (envOf : Nat → List Nat) (henv : ∀ e', (envOf e').Nodup) (fb : Bool) (nn : Nat → Bool) :
+    let fs := crashAt (execAll (exec fs0 ⟨.write id e ts, k, c1, c2⟩) later) last.k last.c1 last.c2 last.op n
+    (∃ m, recover fs id = some (e, m) ∧ rcptsOf envOf fs id = Store.delSeq m.delivered (envOf e)) ∧
+    ∀ q, Reach fb (start (loadOf fs ids) (rcptsOf envOf fs) nn) q → ∀ x ∈ rcptsOf envOf fs id,
+      (q.delivered id).count x + ((q.failed id).map Prod.fst).count x + (outstanding q.s.rem q id).count x = 1 ∧
+      (x ∈ q.delivered id ∨
+       (∃ rp, (x, rp) ∈ q.failed id ∧ ((fb && q.nonNull id) = true → ∃ b ∈ q.bounces id, b.reply = rp ∧ x ∈ b.rcpts)) ∨
+       (x ∈ outstanding q.s.rem q id ∧ id ∈ Sched.sIds q.s ∧ (id ∈ q.s.known → C12.Whereabouts q.s id))) := by
+  intro fs
+  have hsurv := acknowledged_message_survives fs0 k c1 c2 id e ts later last hl hlast n
+  obtain ⟨m, hm⟩ : ∃ m, recover fs id = some (e, m) := by
+    rcases hsurv with h | h <;> exact ⟨_, h⟩
+  refine ⟨⟨m, hm, by simp [rcptsOf, hm]⟩, ?_⟩
+  intro q hr x hx
+  have hpre := loadOf_nodup fs ids hnd
+  have hrc : ∀ i ∈ (loadOf fs ids).map (·.1), (rcptsOf envOf fs i).Nodup := by
+    intro i _
+    simp only [rcptsOf]
+    split
+    · exact (delSeq_sublist _ _).nodup (henv _)
+    · simp
+  have hmem : id ∈ (loadOf fs ids).map (·.1) := List.mem_map.mpr ⟨(id, m.ts), mem_loadOf hm hid, rfl⟩
+  have horig0 : (start (loadOf fs ids) (rcptsOf envOf fs) nn).orig id = some (rcptsOf envOf fs id) := by
+    have hc : ((loadOf fs ids).map (·.1)).contains id = true := List.contains_iff_mem.mpr hmem
+    show (if ((loadOf fs ids).map (·.1)).contains id then some (rcptsOf envOf fs id) else none) = _
+    rw [if_pos hc]
+  -- what a message was accepted with never changes for an id the queue knows from the start … via the trace lemma
+  obtain ⟨ls, hT⟩ := hr.trace
+  have horig : q.orig id = some (rcptsOf envOf fs id) :=
+    (orig_of_start hT (inv_start fb _ _ nn hpre hrc) horig0 (Or.inl (by
+      show id ∈ Sched.sIds (start (loadOf fs ids) (rcptsOf envOf fs) nn).s
+      simpa [start, Sched.sIds] using hmem))).1
+  exact ⟨C01.one_disposition hpre hrc hr id _ horig x hx, C01.accepted_never_lost hpre hrc hr id _ horig x hx⟩
+
+end restartLedger
 
 /-! ### non-vacuity -/
 
